@@ -750,3 +750,28 @@ mutant("seg-initial-unchecked", "C18", GSEG, """            for block in blocks:
             if is_met:""", """            if is_met:""", "SEG-E")
 variant("seg-swap-move-blocks", "C18", GSEG, "        if num_blocks > self.min_num_blocks:", "        if self.min_num_blocks < num_blocks:")
 variant("seg-split-ge-plus", "C18", GSEG, "        if num_blocks < self.max_num_blocks:", "        if num_blocks + 1 <= self.max_num_blocks:")
+
+# ---- C11 ---------------------------------------------------------------------------------------
+PZ = "cspuz/puzzle/"
+mutant("akr-yajilin-key-dropped", "C11", PZ + "yajilin.py", "    solver.add_answer_key(black_cell)\n", "", "AKR")
+mutant("akr-nurikabe-derived", "C11", PZ + "nurikabe.py", "    return is_sat, is_white\n", "    return is_sat, ~is_white\n", "AKR")
+mutant("akr-masyu-find-answer", "C11", PZ + "masyu.py", "    is_sat = solver.solve()\n    return is_sat, grid_frame", "    is_sat = solver.find_answer()\n    return is_sat, grid_frame", "AKR")
+mutant("akr-view-second-key", "C11", PZ + "view.py", "    solver.add_answer_key(has_number)\n", "", "AKR")
+mutant("akr-slither-key-after-solve", "C11", PZ + "slitherlink.py", ["    solver.add_answer_key(grid_frame)\n", "    is_sat = solver.solve()\n    return is_sat, grid_frame"], ["", "    is_sat = solver.solve()\n    solver.add_answer_key(grid_frame)\n    return is_sat, grid_frame"], "AKR")
+mutant("akr-fivecells-flag", "C11", PZ + "fivecells.py", "    if is_invalid:\n        is_sat = False\n    else:\n        is_sat = solver.solve()", "    is_sat = not is_invalid", "AKR")
+mutant("idx-akari-first-row", "C11", PZ + "akari.py", "            if y == 0 or problem[y - 1][x] >= -1:", "            if problem[y - 1][x] >= -1:", "IDX-1")
+mutant("idx-gokigen-corner", "C11", PZ + "gokigen.py", "                if 0 < y and 0 < x:", "                if 0 <= y and 0 < x:", "IDX-1")
+mutant("idx-nurimisaki-offset", "C11", PZ + "nurimisaki.py", "                    elif x > n - 1:", "                    elif x > n - 3:", "IDX-1")
+mutant("idx-shakashaka-guard", "C11", PZ + "shakashaka.py", "            if y > 0 and x > 0:\n                diagonals.append(answer[y - 1, x - 1] == 4)", "            if x > 0:\n                diagonals.append(answer[y - 1, x - 1] == 4)", "IDX-1")
+mutant("idx-fivecells-guard", "C11", PZ + "fivecells.py", "                if y > 0 and problem[y - 1][x] >= -1:", "                if problem[y - 1][x] >= -1:", "IDX-1")
+mutant("idx-geradeweg-guard", "C11", PZ + "geradeweg.py", "([grid_frame.horizontal[y, x - 1]] if x > 0 else [])", "([grid_frame.horizontal[y, x - 1]] if x >= 0 else [])", "IDX-1")
+mutant("dk-lits-rows", "C11", PZ + "lits.py", "    block_id = [[-1 for _ in range(width)] for _ in range(height)]\n    for i, block in enumerate(blocks):\n        for y, x in block:\n            block_id[y][x] = i\n\n    num_straight", "    block_id = [[-1 for _ in range(width)] for _ in range(width)]\n    for i, block in enumerate(blocks):\n        for y, x in block:\n            block_id[y][x] = i\n\n    num_straight", "IDX-2")
+mutant("dk-aquarium-rows", "C11", PZ + "aquarium.py", "    block_id = [[-1 for _ in range(width)] for _ in range(height)]\n    for i, block in enumerate(blocks):\n        for y, x in block:\n            block_id[y][x] = i\n    for y in range(height):", "    block_id = [[-1 for _ in range(width)] for _ in range(width)]\n    for i, block in enumerate(blocks):\n        for y, x in block:\n            block_id[y][x] = i\n    for y in range(height):", "IDX-2", "the original defect")
+mutant("dk-heyawake-while", "C11", PZ + "heyawake.py", "                while y2 < height - 1:", "                while y2 < height:", "IDX-2")
+mutant("dk-view-transposed", "C11", PZ + "view.py", "    to_left = solver.int_array((height, width), 0, width - 1)", "    to_left = solver.int_array((width, height), 0, width - 1)", "IDX-2")
+mutant("dk-castle-wall-transposed", "C11", PZ + "castle_wall.py", "    is_inside = solver.bool_array((height - 1, width - 1))", "    is_inside = solver.bool_array((width - 1, height - 1))", "IDX-2")
+mutant("dk-slither-loop-swapped", "C11", PZ + "slitherlink.py", "    for y in range(height):\n        for x in range(width):\n            if problem[y][x] >= 0:", "    for y in range(width):\n        for x in range(height):\n            if problem[y][x] >= 0:", "IDX-2")
+mutant("dk-yajilin-frame", "C11", PZ + "yajilin.py", "    grid_frame = BoolGridFrame(solver, height - 1, width - 1)", "    grid_frame = BoolGridFrame(solver, width - 1, height - 1)", "IDX-2")
+mutant("dk-putteria-columns", "C11", PZ + "putteria.py", "    for x in range(width):\n        for y1 in range(height):\n            for y2 in range(y1 + 1, height):", "    for x in range(height):\n        for y1 in range(width):\n            for y2 in range(y1 + 1, width):", "IDX-2")
+variant("akr-keys-after-constraints", "C11", PZ + "yajilin.py", ["    solver.add_answer_key(grid_frame)\n    solver.add_answer_key(black_cell)\n", "    is_sat = solver.solve()\n    return is_sat, grid_frame, black_cell"], ["", "    solver.add_answer_key(grid_frame, black_cell)\n    is_sat = solver.solve()\n    return is_sat, grid_frame, black_cell"])
+variant("idx-akari-ge1", "C11", PZ + "akari.py", "                    if y > 0 and problem[y - 1][x] < -1:", "                    if y >= 1 and problem[y - 1][x] < -1:")
